@@ -265,7 +265,7 @@ def run(chk):
                 ln = b[i:b.find('>>', i)].count(',') + 1 if i >= 0 else 0
                 if ln >= 6:
                     k += 1
-                    if not quick or k % 8 == chk.seed % 8:
+                    if k % (8 if quick else 3) == chk.seed % (8 if quick else 3):
                         keep.append(b)
             sel.append(keep)
         total = 0
